@@ -102,7 +102,7 @@ def run_cp(name, timeout=3000, sabotage=None, with_parse=False):
         shutil.rmtree(d, ignore_errors=True)
 
 
-def run_cp_sim(seconds=240, seed=1):
+def run_cp_sim(seconds=240, seed=1, with_parse=False):
     """tlc -simulate on CPSystem with larger constants (texts <= 4 over {a,b}, 3 registers, 6 operations, palette
     {1,31,34}): random walks, every invariant and action property checked on every step; runs until the time limit."""
     import subprocess
@@ -115,7 +115,7 @@ def run_cp_sim(seconds=240, seed=1):
                 shutil.copy(os.path.join(tlcrun.SPEC, fn), os.path.join(snap, fn))
         with open(os.path.join(snap, 'MC.cfg'), 'w') as f:
             f.write('SPECIFICATION Spec\nCONSTANTS\n  MaxLen = 4\n  MaxRegs = 3\n  MaxDepth = 6\n  Alphabet = {97, 98}\n'
-                    '  Palette = {1, 3, 4}\n  MaxTotalLen = 8\n  WithParse = FALSE\nINVARIANT WF\nINVARIANT NoDup\nPROPERTY Refines\nPROPERTY TablesFramed\n'
+                    '  Palette = {1, 3, 4}\n  MaxTotalLen = 8\n  WithParse = ' + ('TRUE' if with_parse else 'FALSE') + '\nINVARIANT WF\nINVARIANT NoDup\nPROPERTY Refines\nPROPERTY TablesFramed\n'
                     'CHECK_DEADLOCK FALSE\n')
         tf = os.path.join(d, 'texts.json')
         with open(tf, 'w') as f:
